@@ -1337,6 +1337,12 @@ impl DcpsDomainParticipant {
             .any(|x| subscription_handle.as_ref() == &x.key().value)
         {
             data_writer.remove_matched_subscription(&subscription_handle);
+            // The reader is gone: stop sending to it and stop waiting for its acknowledgments
+            data_writer
+                .writer
+                .transport_writer
+                .delete_matched_reader(Guid::from(<[u8; 16]>::from(subscription_handle)));
+            data_writer.notify_wait_for_acknowledgments_if_acknowledged();
 
             data_writer
                 .status_condition
@@ -2679,6 +2685,7 @@ impl DcpsDomainParticipant {
                 data_writer
                     .matched_subscription_list
                     .retain(|subscription| subscription.key.value[..12] != prefix);
+                data_writer.notify_wait_for_acknowledgments_if_acknowledged();
             }
         }
 
